@@ -189,6 +189,56 @@ def r19_6(ctx, fx):
     ctx.floor(rid, n, 5, "set_timer call sites")
 
 
+def r19_7(ctx, fx):
+    rid = "R19.7"
+    ctx.rule(rid, "the check hook is armed while anything is pending: in Threshold_Watcher, (a) every assignment of null to Traits::check_function is reached only through the true edge of `pending.empty()` (or the false edge of its negation) — with the hook off no watcher is ever examined, whatever weight accumulates, and (b) add_threshold() installs the hook on every path to its exit")
+    n = 0
+    seen = set()
+    for f in fx.functions:
+        if f.clsn != "Threshold_Watcher" or not f.cfg or (f.name, f.line) in seen:
+            continue
+        seen.add((f.name, f.line))
+        for a in f.walk():
+            if a["k"] != "assign":
+                continue
+            l, r = f.deref(a["c"][0]), f.deref(a["c"][1])
+            if l is None or r is None or "check_function" not in f.text(l):
+                continue
+            rt = f.text(r).replace(" ", "")
+            if rt in ("nullptr", "0", "NULL") or r["k"] == "nullptr":
+                n += 1
+                inst = "%s::%s clears check_function (line %s)" % (f.clsn, f.name, a.get("l"))
+
+                def empty_edge(tc, taken):
+                    pol = True
+                    x = tc
+                    while x is not None and (x["k"] in ("cast", "paren") or (x["k"] == "unop" and x.get("op") == "!")):
+                        if x["k"] == "unop":
+                            pol = not pol
+                        x = f.deref(x["c"][0])
+                    return x is not None and x["k"] == "mcall" and f.call_name(x) == "empty" and "pending" in f.text(x) and taken == pol
+                p = flow.must_precede(f, a, lambda x: False, edge_satisfied=empty_edge, track_env=False)
+                if p is None:
+                    ctx.ok(rid, inst, f.where(a))
+                else:
+                    ctx.violation(rid, inst, f.where(a), "the hook is switched off on a path that has not established `pending.empty()` (%s): watchers still pending are never examined again" % flow.render_path(f, p))
+        if f.name == "add_threshold":
+            n += 1
+            inst = "%s::add_threshold installs check_function" % f.clsn
+
+            def installs(x):
+                if x["k"] != "assign":
+                    return False
+                l, r = f.deref(x["c"][0]), f.deref(x["c"][1])
+                return l is not None and "check_function" in f.text(l) and r is not None and "check" in f.text(r) and f.text(r).replace(" ", "") not in ("nullptr", "0")
+            p = flow.Explorer(f, track_env=False).find_path("ENTRY", installs)
+            if p is None:
+                ctx.ok(rid, inst, f.where())
+            else:
+                ctx.violation(rid, inst, f.where(), "a path through add_threshold() leaves the hook as it was: %s" % flow.render_path(f, p))
+    ctx.floor(rid, n, 2, "writes of the check hook")
+
+
 def run(ctx):
     ctx.explanation = ("C19 structural clauses: critical-section discipline around handler-shared state, once-only dispatch structure, dispatch test of the "
                        "weight watcher, operand use in the Time comparison operators; decides these clauses, not the deadline arithmetic or promptness")
@@ -200,3 +250,4 @@ def run(ctx):
     r19_4(ctx, fx)
     r19_5(ctx, fx)
     r19_6(ctx, fx)
+    r19_7(ctx, fx)
